@@ -16,11 +16,11 @@ pub fn u53_line(v: u64) -> String {
         Err(_) => "T:-".into(),
         Ok(x) => {
             let back: u64 = x.into();
-            let ser = serde_json::to_string(&x).unwrap();
+            let ser = serde_json::to_string(&x).unwrap_or_else(|_| "SERIALIZE-ERROR".into());
             let de: Result<U53, _> = serde_json::from_str(&ser);
             let dbl = back as f64;
             let via_double = dbl as u64;
-            let f: f64 = serde_json::from_str(&ser).unwrap();
+            let f: f64 = serde_json::from_str(&ser).unwrap_or(f64::NAN);
             format!(
                 "T:{}|B:{}|N8:{}|N16:{}|N32:{}|S:{}|D:{}|U:{}|F:{}|J:{}|E:{}",
                 x, back, o(u8::try_from(x)), o(u16::try_from(x)), o(u32::try_from(x)), ser, o(de.map(u64::from)),
@@ -35,11 +35,11 @@ pub fn i54_line(v: i64) -> String {
         Err(_) => "T:-".into(),
         Ok(x) => {
             let back: i64 = x.into();
-            let ser = serde_json::to_string(&x).unwrap();
+            let ser = serde_json::to_string(&x).unwrap_or_else(|_| "SERIALIZE-ERROR".into());
             let de: Result<I54, _> = serde_json::from_str(&ser);
             let dbl = back as f64;
             let via_double = dbl as i64;
-            let f: f64 = serde_json::from_str(&ser).unwrap();
+            let f: f64 = serde_json::from_str(&ser).unwrap_or(f64::NAN);
             format!(
                 "T:{}|B:{}|N8:{}|N16:{}|N32:{}|S:{}|D:{}|U:{}|F:{}|J:{}|E:{}",
                 x, back, o(i8::try_from(x)), o(i16::try_from(x)), o(i32::try_from(x)), ser, o(de.map(i64::from)),
